@@ -736,8 +736,36 @@ func opReader(c *wire.Case, res *wire.Result) {
 			}
 			counters["other_readers_opened_mid_history"] += 90
 		}
-		op := rng.intn(3)
+		op := rng.intn(4)
 		switch op {
+		case 3: // one Seek, then several Reads in a row: each continues where the one before stopped
+			off := pickOff()
+			fr.Seek(off)
+			sr.Seek(off)
+			cur := off
+			fileMonRow(fr, off)
+			fileMonRow(sr, off)
+			for j := 0; j < 2+rng.intn(4); j++ {
+				l := 1
+				if rng.intn(3) == 0 {
+					l = 1 + rng.intn(8)
+				}
+				want := expect(cur, l)
+				if want == "" {
+					break // (at the end of the file: what a short read leaves behind is not compared)
+				}
+				got := fr.Read(l)
+				ref := sr.Read(l)
+				counters["reads_in_a_row"]++
+				if got != want || ref != want {
+					res.Mismatch = fmt.Sprintf("op#%d Seek(%d) then read %d in a row, Read(%d) at %d: file=%q string=%q want=%q (size %d)", i, off, j+1, l, cur, clip(got), clip(ref), clip(want), size)
+					return
+				}
+				cur += l
+			}
+			fileMonRow(fr, -1)
+			fileMonRow(sr, -1)
+			pos = cur
 		case 0: // Seek then Read, as the engine's READ does
 			off := pickOff()
 			l := pickLen()
